@@ -276,6 +276,10 @@ def print_best_metric_found(
         return None
     if mode is None:
         mode = "min"
+    elif isinstance(mode, list):
+        # Multi-objective schedulers declare one mode per metric. The summary
+        # is about the first metric, so its mode applies
+        mode = mode[0]
     # only plot results of the best first metric for now in summary, plotting the optimal metrics for multiple
     # objectives would require to display the Pareto set.
     metric_name = metric_names[0]
